@@ -31,3 +31,15 @@ CFG["rule"] += (' Run\'s context: the readiness enumeration is crossed with the 
                 'os.ErrDeadlineExceeded, io.EOF / ErrUnexpectedEOF, own error types with Is / Unwrap() []error / Timeout methods; the retry-after-10-s, '
                 'half-life and served-SVID oracles apply unchanged, and while the initial fetch succeeded and Run\'s context is live Run has not '
                 'returned. Classes run-context.*, initial-failure.*, renewal-failure-error.* count what was generated and reached.')
+CFG["rule"] += (' Further Run calls: the readiness enumeration also contains every order of Run, Ready and GetX509SVID with a SECOND call of Run '
+                'among them (the generated companion: up to three Run calls, two consumers, all context states), the first Run held in the initial '
+                'fetch at the gate or already past it. Oracle: the further Run is refused with an error at once, and nobody gets through before '
+                'the initial fetch has finished - at every settled point at which no Run has been called yet, or the issuer has been asked for the '
+                'initial certificate and has not answered, no Ready / GetX509SVID call has returned. Non-trivial (A) also: a further Run refused '
+                'while the initial fetch was in flight with a consumer waiting or arriving. Certificate chains: a scripted certificate answer is '
+                'a leaf alone or a real chain - the leaf signed by an intermediate CA, 1..2 intermediates up to the root - whose intermediates\' '
+                'validity windows differ from the leaf\'s (started 1 s .. 10 years earlier or a quarter / half of the leaf\'s validity later; '
+                'outlive it by 1 h .. 10 years or by 1..4 times its validity, or expire before it). The half-life law is applied to the current '
+                'certificate = the leaf; the served SVID\'s Certificates and cert.pem of the identity directory must be the chain as issued (same '
+                'certificates, same order). Classes further-Run-refused.*, run-calls.N, issuer-chain.* (".renewed" = the chain\'s leaf stayed '
+                'current until its renewal was requested) count what was generated and reached.')
